@@ -121,6 +121,29 @@ theorem C35_fixed_regression :
     (run (St.init .release) ([.createPart true, .createPub 0 true] ++ churn 255 ++ [.createPub 0 true])).pubs.length = 1 := by
   decide +kernel
 
+/-- the seeded order of `find_topic` (seed_C35_c: counter incremented before the handle is built): a topic obtained through
+    `find_topic` and the NEXT created topic are two live Topic entities with one handle; as coded all three handles differ.
+    (`C35_unique` covers histories with `findTopic` steps: the step alphabet of `run` contains them.) -/
+theorem C35_find_topic_seeded_counterexample :
+    let s1 := (createPart (St.init .debug) true).1
+    let s2 := (createTopic s1 0 "A" true).1
+    let seeded := (createTopic (findTopicOpSeeded s2 0 "T1" true true).1 0 "B" true).1
+    let coded := run (St.init .debug) [.createPart true, .createTopic 0 "A" true, .findTopic 0 "T1" true true,
+      .createTopic 0 "B" true]
+    seeded.topics.length = 3 ∧ ¬ (allHandles seeded).Nodup ∧
+    (findTopicOpSeeded s2 0 "T1" true true).2 = (createTopic (findTopicOpSeeded s2 0 "T1" true true).1 0 "B" true).2 ∧
+    coded.topics.length = 3 ∧ (allHandles coded).Nodup := by
+  decide +kernel
+
+/-- `find_topic` of a name that is neither local nor discovered answers Timeout and changes nothing; of a local topic it
+    answers that topic's handle and creates nothing -/
+theorem C35_find_topic_no_entity (s : St) (ph : Nat) (n : String) (k : Bool) (p : Part) (hp : findPart s ph = some p) :
+    (findTopic s p.uid n = none → findTopicOp s ph n k false = (s, .err .timeout)) ∧
+    (∀ t, findTopic s p.uid n = some t → ∀ d, findTopicOp s ph n k d = (s, .handle (topicHandle t))) := by
+  refine ⟨?_, ?_⟩
+  · intro h; unfold findTopicOp; simp [hp, h]
+  · intro t h d; unfold findTopicOp; simp [hp, h]
+
 /-! ### non-vacuity -/
 
 /-- a non-trivial history: two participants, publishers, subscribers, topics, a writer and a reader, deletions in
